@@ -5,9 +5,12 @@ sys.path.insert(0, os.path.dirname(os.path.abspath(__file__)))
 from common import rng
 
 FAMILY = "ladder"
-HARNESS = {"source": "x_ladder.c", "exclude_objs": ["loop"], "leak_clean": True}
+HARNESS = {"source": "x_ladder.c", "exclude_objs": ["loop", "parser"], "leak_clean": True}
 ENV = {"VERIF_LEAKCHECK": "1"}
-RULE = ("namesnorm: n = 1..5 names x every fault position; deser of table blobs: 0, 1, 3 and 11 (one bucket) keys x value "
+RULE = ("allloops: cif_container_get_all_loops on 1..8 loops with / without category x every fault position; loophdr: parse_loop on a header of n = 1..6 (9) names + a refused duplicate x every fault position; getpackets: 1, 2, 3, 9 names and 10 names of one uthash bucket x every fault position; nextpacket: packets of 1..10 items with unknown / "
+        "text / number / list / table (nested) values, handed over or dropped x every fault position; vclone / vdeser: cif_value_clone / cif_value_deserialize of value trees with tables at any depth (12 hand-picked: empty tables, "
+        "table in list in table, a bucket expansion inside a nested table; 25 / 400 random trees of depth <= 3) x every fault position; "
+        "namesnorm: n = 1..5 names x every fault position; deser of table blobs: 0, 1, 3 and 11 (one bucket) keys x value "
         "shapes x every fault position; mapset / mapdel / tclone: tables and packets with 0..10 keys sharing a uthash bucket (first bucket expansion at the 10th) "
         "and a table of 144 ordinary keys (first natural expansion), key new / present / present in another spelling, value "
         "NULL or of 4 shapes, every fault position; deser: every generated list shape without numbers x every fault position; packet: 0..9 names, each already normalised or respelled (13 fixed + random flag strings) x every fault position; "
@@ -149,6 +152,115 @@ def map_requests(r, tier):
                 yield " ".join(("ladder tclone T %d %s %s %d" % (len(keys), " ".join(keytok(x) for x in keys), st, k)).split())
 
 
+# ---- arbitrary value trees (Model/LadderTree): tables are ("T", [(key, value), …]) ---------------------------------
+
+def vtoks(sh):
+    if isinstance(sh, str):
+        return [sh]
+    if isinstance(sh, tuple):
+        out = ["{"]
+        for k, v in sh[1]:
+            out += [hx(k)] + vtoks(v)
+        return out + ["}"]
+    out = ["["]
+    for e in sh:
+        out += vtoks(e)
+    return out + ["]"]
+
+
+def vbound(sh):
+    """an upper bound of the number of requests of cif_value_clone (and so of cif_value_deserialize) for a tree: the exact
+    count without bucket expansions plus one per 9 entries of a table (an expansion needs at least 10 items)"""
+    if isinstance(sh, str):
+        return nallocs(sh)
+    if isinstance(sh, tuple):
+        es = sh[1]
+        return 1 + sum(3 + vbound(v) for _, v in es) + (2 if es else 0) + len(es) // 9
+    return 2 + sum(vbound(e) for e in sh)
+
+
+def has_table(sh):
+    if isinstance(sh, tuple):
+        return True
+    return (not isinstance(sh, str)) and any(has_table(e) for e in sh)
+
+
+def rand_tree(r, depth, pool):
+    x = r.random()
+    if depth > 0 and x < 0.25:
+        return [rand_tree(r, depth - 1, pool) for _ in range(r.randint(0, 3))]
+    if depth > 0 and x < 0.55:
+        keys = r.sample(pool, r.randint(0, 3))
+        return ("T", [(k, rand_tree(r, depth - 1, pool)) for k in keys])
+    return r.choice(["S", "C", "C", "M0", "M1"])
+
+
+def tree_requests(r, tier):
+    """cif_value_clone / cif_value_deserialize of values with tables at any depth: hand-picked trees (empty tables, tables in
+    lists in tables, 11 keys of one uthash bucket inside a NESTED table so that the bucket expansion happens there) and
+    random trees, every fault position"""
+    coll = colliding("k", 3, 5, 12)
+    T = lambda *kv: ("T", list(kv))
+    trees = [T(), T(("a", "S")), T(("a", "C"), ("b", "M1")), [T(("a", "C"))], ["C", T(("a", [T(("b", "M0"))])), "S"],
+             T(("a", T(("b", T(("c", "C")))))), T(("a", []), ("b", T())), [T(), T()],
+             T(("a", ["C", T(("b", "M1"), ("c", []))]), ("d", T(("a", "S")))),
+             T(("x", T(*[(k, "S") for k in coll[:11]]))),            # expansion in a nested table (10th item of one bucket)
+             [T(*[(k, "C") for k in coll[:10]])],                    # … in a table that is a list element
+             T((coll[0], T(*[(k, "S") for k in coll[:10]])), (coll[1], "C"))]
+    if tier != "quick":
+        trees += [T(*[(k, T((coll[0], "C"))) for k in coll[:11]]),  # expansion of the OUTER table while inner tables exist
+                  T(*[("r%d" % i, "S") for i in range(40)])]     # (MAXEV = 400 events per window bounds the size)
+    pool = coll[:6] + ["a", "b", "zz", "e" + chr(0x301)]
+    n_rand = 25 if tier == "quick" else 400
+    while n_rand > 0:
+        t = rand_tree(r, 3, pool)
+        if has_table(t) and vbound(t) <= 90:
+            trees.append(t); n_rand -= 1
+    for t in trees:
+        tt = " ".join(vtoks(t))
+        for k in range(0, vbound(t) + 2):
+            yield "ladder vclone %s %d" % (tt, k)
+        if not isinstance(t, str):
+            for k in range(0, vbound(t) + 1):
+                yield "ladder vdeser %s %d" % (tt, k)
+    # the table-free shapes go through the general model too
+    for sh in ["S", "C", "M1", [], ["C", "M0"], [[], ["C", ["M1"]], "S"]]:
+        for k in range(0, nallocs(sh) + 2):
+            yield "ladder vclone %s %d" % (" ".join(toks(sh)), k)
+        if isinstance(sh, list):
+            for k in range(0, nallocs(sh) + 1):
+                yield "ladder vdeser %s %d" % (" ".join(toks(sh)), k)
+
+
+def iter_requests(r, tier):
+    """cif_loop_get_packets (name set) and cif_pktitr_next_packet (packet assembly).  The order of the names in the iterator's
+    array is SQLite's, so only name sets whose uthash behaviour does not depend on the insertion order are used: up to 9
+    names (no bucket can reach the expansion threshold) and exactly 10 names of one bucket (expansion at the 10th insertion)."""
+    pcoll = colliding("_p", 7, 5, 10)
+    sets = [["_a"], ["_a", "_b"], ["_a", "_b", "_c.d"], ["_n%d" % i for i in range(9)], pcoll]
+    if tier != "quick":
+        sets += [["_n%d" % i for i in range(5)], pcoll[:7]]
+    for names in sets:
+        n = len(names)
+        total = 1 + 5 * n + 1 + n + 2 + (1 if n >= 10 else 0)
+        for k in range(0, total + 2):
+            yield "ladder getpackets %d %s %d" % (n, " ".join(hx(x) for x in names), k)
+    T = lambda *kv: ("T", list(kv))
+    vals = ["S", "C", "M0", "M1", ["C", "M1"], T(("a", "C")), ["S", T(("k", ["C"]), ("b", T()))], []]
+    packets = [[("_a", v)] for v in vals]
+    packets += [[("_a", "C"), ("_b", "M1")], [("_a", ["C"]), ("_b", "S"), ("_c", T(("x", "M0")))],
+                [(nm, "C") for nm in pcoll], [("_n%d" % i, vals[i % len(vals)]) for i in range(9)]]
+    for _ in range(4 if tier == "quick" else 60):
+        packets.append([("_r%d" % i, rand_tree(r, 2, ["a", "b", "zz"])) for i in range(r.randint(1, 5))])
+    for p in packets:
+        n = len(p)
+        body = " ".join("%s %s" % (hx(nm), " ".join(vtoks(v))) for nm, v in p)
+        total = 1 + 2 * n + 2 + (1 if n >= 10 else 0) + sum(vbound(v) for _, v in p)
+        for keep in (0, 1):
+            for k in range(0, total + 2):
+                yield "ladder nextpacket %d %d %s %d" % (keep, n, body, k)
+
+
 def rand_nonum(r, depth):
     if depth > 0 and r.random() < 0.4:
         return [rand_nonum(r, depth - 1) for _ in range(r.randint(0, 4))]
@@ -177,6 +289,20 @@ def generate(seed, tier):
                 yield " ".join(("ladder deser { %s } %d" % (body, k)).split())
     for q in map_requests(r, tier):
         yield q
+    for q in tree_requests(r, tier):
+        yield q
+    for q in iter_requests(r, tier):
+        yield q
+    # cif_container_get_all_loops: one loop per flag (c = with category, n = without)
+    for fl in ["c", "n", "cc", "cn", "nc", "ccc", "cnc", "nnn", "ccccc"] + ["".join(r.choice("cn") for _ in range(r.randint(1, 8))) for _ in range(4 if tier == "quick" else 40)]:
+        for k in range(0, len(fl) + fl.count("c") + 3):
+            yield "ladder allloops %s %d" % (fl, k)
+    # parse_loop_header + parse_loop's release of the name list: n distinct names and a refused repetition of the first
+    # (harness/alloc.h records at most MAXEV = 400 events per window: n <= 9 keeps requests + releases below that)
+    for n in (range(1, 7) if tier == "quick" else range(1, 10)):
+        total = sum(5 + 3 * i for i in range(n)) + 8
+        for k in range(0, total + 2):
+            yield "ladder loophdr %d %d" % (n, k)
     # cif_packet_create: at most 9 names, so that no uthash bucket can reach the expansion threshold of 10 entries
     flagsets = ["-", "n", "r", "nn", "nr", "rn", "rr", "nrn", "rrn", "nnnn", "rnrnr", "rrrrrrrrr", "nnnnnnnnn"]
     flagsets += ["".join(r.choice("nr") for _ in range(r.randint(1, 9))) for _ in range(6 if tier == "quick" else 80)]
@@ -237,11 +363,23 @@ def classify(req, impl):
 def oracle(req, impl):
     if not impl.startswith("ld "):
         return None
+    if impl.rstrip().endswith(" overflow") or " overflow " in impl:
+        return "harness limit: more than MAXEV events in the window (the request is too large for this executor)"
     if "!LEAK" in impl:
         return "memory leaked"
     for bad in ("later-insert=", "unreadable@", "size="):
         if bad in impl:
             return "the caller's list is not usable as a list after the call: " + impl.split(bad, 1)[1].split()[0].join([bad, ""])
+    for mark, what in (("!NOCLONE", "cif_value_clone returned CIF_OK without a clone"), ("!CLONESET", "cif_value_clone failed but set *clone")):
+        if mark in impl:
+            return what
+    for mark, what in (("!NOITER", "cif_loop_get_packets returned CIF_OK without an iterator"), ("!ITERSET", "cif_loop_get_packets failed but set *iterator"),
+                       ("!RETRY", "cif_loop_get_packets did not succeed when repeated with memory available"), ("!ITERUSE", "the iterator is not usable"),
+                       ("!PACKETSET", "cif_pktitr_next_packet failed but set *packet"),
+                       ("!NOLOOPS", "cif_container_get_all_loops returned CIF_OK without loops"), ("!LOOPUSE", "a loop handle returned by cif_container_get_all_loops is not usable"),
+                       ("!LOOPCOUNT", "cif_container_get_all_loops returned the wrong number of loops"), ("!LOOPSSET", "cif_container_get_all_loops failed but set *loops"), ("!PVALUE", "the packet read through the iterator does not hold the stored value")):
+        if mark in impl:
+            return what
     for mark in ("!PNAME", "!PCOUNT", "!PITEM", "!NOPACKET", "!TEXT", "!NEWVALUE"):
         if mark in impl:
             return "after success the created packet / the character value is not what was requested: " + mark
@@ -260,6 +398,11 @@ def oracle(req, impl):
     if "!ITEM" in impl:
         return "an item of the map cannot be retrieved after the call"
     if fails == "-":
+        if t[1] == "loophdr":
+            # the refused duplicate name ends the parse with the callback's code; the header's name list must be gone
+            if rc != "41":
+                return "no allocation failed but parse_loop returned %s instead of the refused CIF_DUP_ITEMNAME" % rc
+            return None if live == "-" else "parse_loop left blocks %s of the header live" % live
         if t[1] == "mapdel" and rc == "43":
             # CIF_NOSUCH_ITEM is the documented answer for a key that is not in the map
             keys = [x.split(":")[-1] for x in t[4:4 + int(t[3])]]
